@@ -725,7 +725,7 @@ def main2(tier, t0, progs, nat):
         lengths, range_lengths = list(range(0, nmax + 1)), [0, 1, 2, 3, 4]
         SECOND["every"] = 1000
     bodies = make_bodies(progs, lengths, range_lengths)
-    deadline = t0 + (900 if tier == "quick" else 2400)
+    deadline = time.time() + (900 if tier == "quick" else 2400)       # exploration only
     res = run_harnesses(bodies, depth=6, query_timeout_ms=60000, deadline=deadline)
 
     rep = common.Reporter(PID)
